@@ -33,7 +33,11 @@ def _split(total, tag):
     constructor's normalisation branches nor div/mod terms enter the queries."""
     from crosshair.libimpl.builtinslib import SymbolicInt
     from crosshair.tracers import NoTracing, is_tracing
-    if not is_tracing() or type(total) is int:          # concrete replay: plain arithmetic
+    if not is_tracing():                                # concrete replay: plain arithmetic
+        return total // NPD, total % NPD
+    with NoTracing():
+        concrete = not isinstance(total, SymbolicInt)    # (type() lies under tracing: it reports int for symbolic ints)
+    if concrete:
         return total // NPD, total % NPD
     with NoTracing():
         d, n = SymbolicInt("sz_d_" + tag), SymbolicInt("sz_n_" + tag)
